@@ -372,7 +372,7 @@ func (s *Sim) checkCallJustified(r *Req) {
 		}
 		msg := fmt.Sprintf("%s was forwarded on the grant %s although a %s trigger reached the gateway in between", r.ID, g.ID, trig.Kind)
 		if shape == "call-on-invalidated-grant" {
-			s.pendingAcc = append(s.pendingAcc, pendingAccess{"C05", "a", shape, msg, c, cr.RID, trig, r.Seq, s.Step})
+			s.pendingAcc = append(s.pendingAcc, pendingAccess{"C05", "a", shape, msg, c, cr.RID, trig, r.Seq, s.Step, cr.Action})
 		} else {
 			s.violate("C05", "a", shape, "%s", msg)
 		}
@@ -540,11 +540,7 @@ func (s *Sim) accessOnHandOver(c *Client, rid string, f *Frame, r *CReq) {
 			shape = "data-on-invalidated-grant-deferred"
 		}
 		msg := fmt.Sprintf("client %s was handed %s on the grant %s although a %s trigger reached the gateway in between", c.Name, rid, g.ID, trig.Kind)
-		if shape == "data-on-invalidated-grant" {
-			s.pendingAcc = append(s.pendingAcc, pendingAccess{"C04", "c", shape, msg, c, rid, trig, f.Seq, s.Step})
-		} else {
-			c.violate("C04", "c", shape, "%s", msg)
-		}
+		s.pendingAcc = append(s.pendingAcc, pendingAccess{"C04", "c", shape, msg, c, rid, trig, f.Seq, s.Step, r.Action})
 	}
 }
 
@@ -567,6 +563,7 @@ type pendingAccess struct {
 	trig                     *Trigger
 	useSeq                   uint64
 	step                     int
+	action                   string
 }
 
 // finalizeAccess classifies the postponed C04.c/C05.a violations: if an event
@@ -576,6 +573,32 @@ type pendingAccess struct {
 func (s *Sim) finalizeAccess() {
 	for _, p := range s.pendingAcc {
 		shape := p.shape
+		if p.prop == "C04" && strings.HasSuffix(shape, "-deferred") {
+			// the deferral is a known finding only as far as the re-check does
+			// follow: a direct subscription the client still has must have been
+			// re-checked after the trigger
+			if p.action != "get" && p.c.Direct[p.rid] > 0 && p.c.State == "open" && !p.c.eofSeen() && p.c.Tainted == "" {
+				name, query := splitRID(p.c.expandCID(p.rid))
+				rechecked := false
+				s.mu.Lock()
+				for _, q := range s.tr.reqs {
+					if q.Type == "access" && q.CIdx == p.c.CIdx && q.Name == name && q.Query == query && q.Seq > p.trig.DlvSeq {
+						rechecked = true
+					}
+				}
+				s.mu.Unlock()
+				if !rechecked {
+					shape = "data-on-invalidated-grant-never-rechecked"
+				}
+			}
+			if shape != p.shape {
+				s.violateAt(p.prop, p.clause, shape, p.step, "%s; and no access request for it followed until quiescence", p.msg)
+				s.violateAt("C06", "a", "no-recheck-after-deferral", p.step, "client %s is directly subscribed to %s on a grant older than a %s trigger that arrived while the request was in progress, and no access request for it was sent afterwards", p.c.Name, p.rid, p.trig.Kind)
+			} else {
+				s.violateAt(p.prop, p.clause, shape, p.step, "%s", p.msg)
+			}
+			continue
+		}
 		if _, v := s.W.lookup(p.c.expandCID(p.rid)); v != nil {
 			for _, f := range p.c.Frames {
 				if f.Seq < p.useSeq || !strings.HasPrefix(f.Event, p.rid+".") {
